@@ -29,12 +29,13 @@ pub struct Chooser {
     /// set when the forced prefix asked for an option that does not exist (only legal for
     /// the speculative first choice of a sharded exploration)
     pub infeasible: bool,
-    tolerate_infeasible_first: bool,
+    /// number of leading positions whose forced option is speculative (sharded exploration)
+    tolerate_infeasible_upto: usize,
 }
 
 impl Chooser {
     pub fn new(prefix: Vec<u32>) -> Self {
-        Chooser { prefix, trace: Vec::new(), spent: 0, infeasible: false, tolerate_infeasible_first: false }
+        Chooser { prefix, trace: Vec::new(), spent: 0, infeasible: false, tolerate_infeasible_upto: 0 }
     }
 
     /// Take a decision among `costs.len()` options. `costs[0]` must be 0.
@@ -44,7 +45,7 @@ impl Chooser {
         let i = self.trace.len();
         let taken = if i < self.prefix.len() {
             let t = self.prefix[i];
-            if t as usize >= costs.len() && i == 0 && self.tolerate_infeasible_first {
+            if t as usize >= costs.len() && i < self.tolerate_infeasible_upto {
                 self.infeasible = true;
                 0
             } else if t as usize >= costs.len() {
@@ -95,40 +96,50 @@ where
 /// Like `explore`, restricted to the executions whose first choice is option `first`
 /// (`None` = everything; `Some((f, n))` = shard f of n). The union over `f in 0..n` is exactly `explore`;
 /// this is how one scenario is sharded over several workers.
-pub fn explore_from<B>(budget: u32, first: Option<(u32, u32)>, mut body: B) -> (ExploreStats, Option<(Vec<u32>, Vec<String>, String)>)
+pub fn explore_from<B>(budget: u32, first: Option<(u32, u32)>, body: B) -> (ExploreStats, Option<(Vec<u32>, Vec<String>, String)>)
+where
+    B: FnMut(SharedChooser) -> Result<(), String>,
+{
+    match first {
+        None => explore_shard(budget, &[], 0, body),
+        Some((f, n)) => explore_shard(budget, &[f], n, body),
+    }
+}
+
+/// The executions whose first `shard.len()` choices are `shard` (an execution with fewer choice points belongs to
+/// the shard that pads its choices with zeros). Every choice point inside the shard prefix must have at most
+/// `width` options. The union over all `shard` in `{0..width}^k` is exactly `explore`: each execution has one
+/// padded k-prefix, so it is visited by exactly one shard; forced options that do not exist, or whose cost
+/// exceeds the budget, make the shard empty.
+pub fn explore_shard<B>(budget: u32, shard: &[u32], width: u32, mut body: B) -> (ExploreStats, Option<(Vec<u32>, Vec<String>, String)>)
 where
     B: FnMut(SharedChooser) -> Result<(), String>,
 {
     let mut stats = ExploreStats::default();
-    let mut stack: Vec<Vec<u32>> = vec![match first {
-        None => vec![],
-        Some((f, _)) => vec![f],
-    }];
+    let mut stack: Vec<Vec<u32>> = vec![shard.to_vec()];
     let mut failure = None;
     let mut root = true;
     while let Some(prefix) = stack.pop() {
-        let plen = prefix.len();
+        let mut plen = prefix.len();
         let mut c = Chooser::new(prefix);
-        c.tolerate_infeasible_first = root && first.is_some();
+        if root {
+            c.tolerate_infeasible_upto = shard.len();
+        }
         let ch = Rc::new(RefCell::new(c));
         let r = body(ch.clone());
         let ch = ch.borrow();
-        if root && first.is_some() {
-            // the speculative first option may not exist, may be over budget, or the execution
-            // may have no choice point at all (then only shard 0 owns it)
-            let (f, nshards) = first.unwrap();
-            if !ch.trace.is_empty() {
-                assert!(ch.trace[0].arity <= nshards, "first choice has {} options but the exploration is split into {} shards", ch.trace[0].arity, nshards);
+        if root && !shard.is_empty() {
+            let m = shard.len().min(ch.trace.len());
+            for c in &ch.trace[..m] {
+                assert!(c.arity <= width, "a choice inside the shard prefix has {} options but the exploration is split {}-ways per level", c.arity, width);
             }
-            let bogus = ch.infeasible
-                || (ch.trace.is_empty() && f != 0)
-                || (!ch.trace.is_empty() && ch.trace[0].costs[ch.trace[0].taken as usize] as u32 > budget);
+            let forced_cost: u32 = ch.trace[..m].iter().map(|c| c.costs[c.taken as usize] as u32).sum();
+            let bogus = ch.infeasible || shard[m..].iter().any(|x| *x != 0) || forced_cost > budget;
             if bogus {
                 return (stats, None);
             }
+            plen = m;
         }
-        // an execution without any choice point belongs to shard 0
-        let plen = if root && ch.trace.is_empty() { 0 } else { plen };
         root = false;
         assert!(ch.trace.len() >= plen, "replay divergence: execution ended after {} choices, prefix has {}", ch.trace.len(), plen);
         stats.executions += 1;
@@ -139,7 +150,7 @@ where
             if failure.is_none() {
                 failure = Some((ch.choices(), ch.describe(), e));
             }
-            // keep exploring siblings? no: the first failure has the fewest deviations along DFS order; stop.
+            // the first failure has the fewest deviations along DFS order; stop.
             break;
         }
         // schedule alternatives at positions >= plen
